@@ -61,13 +61,37 @@ def gen_cases(tier, seed):
             i = r.randrange(1, len(toks))
             extra.append({"t": " ".join(toks[:i] + [r.choice(["#work", "#x-1", "#a #b"])] + toks[i:]), "ts": c["ts"]})
         extra.append({"t": r.choice(["#tag ", ""]) + c["t"] + r.choice([" #end", ""]), "ts": c["ts"]})
+    # the same tokens in another order, run in the same process right after the text (state keyed on an order-insensitive
+    # summary of an earlier text breaks completeness of the later one)
+    import itertools
+    for c in (cases + extra)[::4]:
+        toks = c["t"].split(" ")
+        if 3 <= len(toks) <= 4:
+            perms = [" ".join(p) for p in itertools.permutations(toks)][1:]
+            c["also"] = perms if len(perms) <= 5 else r.sample(perms, 6)
+        elif len(toks) > 4:
+            c["also"] = [" ".join(toks[::-1]), " ".join(toks[1:] + toks[:1])]
+    for base in ["next week friday 5pm", "tomorrow at 5pm", "morgen um 8 uhr", "friday 13th 9am", "heute abend 20 uhr", "monday morning 9-5"]:
+        toks = base.split(" ")
+        cases.append({"t": base, "ts": "2021-03-03T12:00:00", "also": [" ".join(p) for p in itertools.permutations(toks)][1:]})
     return cases + extra
 
 
 def run_case(case, ctx):
+    res = _run_text(case, ctx, case["t"])
+    for t2 in case.get("also", ()):
+        if res["st"] != "ok":
+            break
+        r2 = _run_text(case, ctx, t2)
+        if r2["st"] == "viol":
+            r2["msg"] = "(run right after %r in the same process) %s" % (case["t"], r2["msg"])
+            return r2
+    return res
+
+
+def _run_text(case, ctx, text):
     L, mon = ctx["L"], ctx["mon"]
     ts = C.parse_ts(case["ts"])
-    text = case["t"]
     key = "%s|%s" % (text, case["ts"])
     norm = L.m._preprocess_string(text)
     try:
